@@ -24,9 +24,9 @@ package debian
 // length compare as text; an empty run has the same stripped text as a run of zeros
 //@ func compareDebianDigits
 //@   comparator a ~ b                                     [C01]
-//@   ensures shorter: len(strings.TrimLeft(a, "0")) < len(strings.TrimLeft(b, "0")) ==> result == -1   [C10]
-//@   ensures longer: len(strings.TrimLeft(a, "0")) > len(strings.TrimLeft(b, "0")) ==> result == 1     [C10]
-//@   ensures same-length: len(strings.TrimLeft(a, "0")) == len(strings.TrimLeft(b, "0")) ==> result == strings.Compare(strings.TrimLeft(a, "0"), strings.TrimLeft(b, "0"))   [C10]
+//@   ensures shorter: len(strings.TrimLeft(a, "0")) < len(strings.TrimLeft(b, "0")) ==> result == -1   [C03 C10]
+//@   ensures longer: len(strings.TrimLeft(a, "0")) > len(strings.TrimLeft(b, "0")) ==> result == 1     [C03 C10]
+//@   ensures same-length: len(strings.TrimLeft(a, "0")) == len(strings.TrimLeft(b, "0")) ==> result == strings.Compare(strings.TrimLeft(a, "0"), strings.TrimLeft(b, "0"))   [C03 C10]
 //@   ensures empty-is-zero: a == "" && b == "0" ==> result == 0   [C10]
 
 // Two-cursor scanner: outside the loop shapes govc summarises; bounded stand-in.
@@ -113,3 +113,9 @@ package debian
 
 //@ func (*VersionRange).String
 //@   ensures text: result == arg0.original   [C18]
+
+// lifting to whole ranges: an AND-range of comparator constraints treats versions that compare equal alike (the two
+// quantified sides are what Contains returns for v1 and v2, by its `and` clause)
+//@ lemma c20-range-equal [C20] uses c20-equal: forall vr *VersionRange, v1, v2 *Version :: vr != nil && v1 != nil && v2 != nil && wfRange(vr) && (forall i int :: 0 <= i && i < len(vr.constraints) ==> vr.constraints[i].version != nil && (vr.constraints[i].operator == "=" || vr.constraints[i].operator == "!=" || vr.constraints[i].operator == "<" || vr.constraints[i].operator == "<=" || vr.constraints[i].operator == ">" || vr.constraints[i].operator == ">=" || vr.constraints[i].operator == ">>" || vr.constraints[i].operator == "<<")) && v1.Compare(v2) == 0 ==> ((forall i int :: 0 <= i && i < len(vr.constraints) ==> satisfiesConstraint(v1, vr.constraints[i])) == (forall i int :: 0 <= i && i < len(vr.constraints) ==> satisfiesConstraint(v2, vr.constraints[i])))
+// ... and the set a range without != accepts is convex in the order
+//@ lemma c20-range-convex [C20] uses c20-convex: forall vr *VersionRange, a, b, d *Version :: vr != nil && a != nil && b != nil && d != nil && wfRange(vr) && (forall i int :: 0 <= i && i < len(vr.constraints) ==> vr.constraints[i].version != nil && (vr.constraints[i].operator == "=" || vr.constraints[i].operator == "!=" || vr.constraints[i].operator == "<" || vr.constraints[i].operator == "<=" || vr.constraints[i].operator == ">" || vr.constraints[i].operator == ">=" || vr.constraints[i].operator == ">>" || vr.constraints[i].operator == "<<") && vr.constraints[i].operator != "!=") && a.Compare(b) <= 0 && b.Compare(d) <= 0 && (forall i int :: 0 <= i && i < len(vr.constraints) ==> satisfiesConstraint(a, vr.constraints[i])) && (forall i int :: 0 <= i && i < len(vr.constraints) ==> satisfiesConstraint(d, vr.constraints[i])) ==> (forall i int :: 0 <= i && i < len(vr.constraints) ==> satisfiesConstraint(b, vr.constraints[i]))
